@@ -46,6 +46,40 @@ Theorem C02_full_chain :
                slp_write g2 = Ok (emit r).
 Proof. exact c02_full_chain. Qed.
 
+From Coq Require Import String.
+From Peppi Require Import Model.Json Gen.SlppEntries Proofs.SlppLayout Gen.SlppHelpers Proofs.SlppHelpersLayout Layout.Rows Model.View Gen.ArrowFrame Proofs.ArrowFrameLayout.
+(* ---- the .slpp side of the trip THROUGH THE TABLES REGENERATED FROM THE SOURCE on this run: the entries the writer appends (order,
+   guards) and the arms of the reader with the one that stops the loop (Gen/SlppEntries.v); the gecko blob prefix on both sides and the
+   metadata arms (Gen/SlppHelpers.v); the children of the Arrow frame struct as exported and the positions they are imported from, for
+   every version (Gen/ArrowFrame.v) ---- *)
+Theorem C02_written_entries_from_source : forall enc_peppi enc_meta enc_start enc_end enc_frames c g es,
+  slpp_write enc_peppi enc_meta enc_start enc_end enc_frames c g = Ok es ->
+  map fst es = written_names (is_some (g_end (sg_game g))) (is_some (g_gecko (sg_game g))) /\
+  map (fun x => sb (fst x)) (filter snd slpp_read_names) = [last (map fst es) []].
+Proof. exact (fun ep em es_ ee ef c g es H => conj (slpp_write_entries_from_source ep em es_ ee ef c g es H) (slpp_last_entry_from_source ep em es_ ee ef c g es H)). Qed.
+Theorem C02_read_names_from_source : forall p, kind_of p = kind_of_tbl slpp_read_targets p.
+Proof. exact slpp_read_names_from_source. Qed.
+Theorem C02_gecko_prefix_from_source : forall n,
+  List.length (enc_size slpp_gecko_write_little_endian n) = slpp_gecko_size_len /\
+  dec_size slpp_gecko_read_little_endian (enc_size slpp_gecko_write_little_endian n) = (n mod 4294967296)%N.
+Proof. exact gecko_size_agrees. Qed.
+Theorem C02_metadata_arms_from_source :
+  meta_of_shape slpp_meta_arms MsNull = Some None /\
+  (forall m, meta_of_shape slpp_meta_arms (MsObject m) = Some (Some m)) /\
+  (forall v, v <> "Null"%string -> v <> "Object"%string -> meta_of_shape slpp_meta_arms (MsOther v) = None).
+Proof. exact meta_arms_from_source. Qed.
+Theorem C02_frame_export_from_source : forall v fr,
+  arrow_frame v fr = arrow_frame_tbl arrow_frame_data_type arrow_frame_into v fr.
+Proof. exact arrow_frame_from_source. Qed.
+Theorem C02_frame_import_positions_from_source : forall v, asserted_fields v = written_fields v.
+Proof. exact (fun v => proj1 (arrow_frame_from_agrees_with_data_type v)). Qed.
+
 Print Assumptions C02_roundtrip.
 Print Assumptions C02_full_chain.
 Print Assumptions C02_write_refuses_only_new_versions.
+Print Assumptions C02_written_entries_from_source.
+Print Assumptions C02_read_names_from_source.
+Print Assumptions C02_gecko_prefix_from_source.
+Print Assumptions C02_metadata_arms_from_source.
+Print Assumptions C02_frame_export_from_source.
+Print Assumptions C02_frame_import_positions_from_source.
